@@ -1,16 +1,13 @@
 import CaddyModel.C01.Props
 open CaddyModel.C01
 #print axioms rejected_changes_nothing
-#print axioms old_sockets_untouched
-#print axioms load_atomic_partial
+#print axioms load_atomic
 #print axioms accepted_installs
 #print axioms unchanged_is_noop
 #print axioms accepted_is_ok_or_same
 #print axioms rejected_leaves_no_module
 #print axioms reachable_invariants
-#print axioms history_atomic_partial
-#print axioms step_atomic_partial
+#print axioms history_atomic
+#print axioms step_atomic
 #print axioms stop_leaves_nothing
-#print axioms load_atomic_full_fails
-#print axioms load_atomic_witness_detail
-#print axioms history_atomic_full_fails
+#print axioms load_atomic_old_code_fails
